@@ -29,15 +29,15 @@ theorem nextCont_found (inp : List UInt8) (G : Prop) (fuel : Nat) (r : Reader) (
     have : nextCont fuel r = resume fuel ip true r := by
       simp only [nextCont, hipv, Option.isNone_some, Bool.false_eq_true, if_false]
     rw [this]
-    exact resume_spec inp G true fuel r ip hb he (hip ip hipv) (hmu r hb.cur_le)
+    exact (resume_spec inp G true fuel r ip hb he (hip ip hipv) (hmu r hb.cur_le)).1
   | none =>
     rcases si_spec r .head hb.pos0_le trivial with ⟨bp', ip', hp0, hsc, hres⟩ | ⟨bp', hp0, hf4, hres⟩
     · have : nextCont fuel r =
           resume fuel ip' true { r with bp := bp', incompletePos := some ip' } := by
         simp only [nextCont, hipv, Option.isNone_none, if_true, search_eq r hipv, hres, wrapS]
       rw [this]
-      exact resume_spec inp G true fuel { r with bp := bp', incompletePos := some ip' } ip'
-        (hb.set_bp bp' _ hp0) he hsc (hmu _ hb.cur_le)
+      exact (resume_spec inp G true fuel { r with bp := bp', incompletePos := some ip' } ip'
+        (hb.set_bp bp' _ hp0) he hsc (hmu _ hb.cur_le)).1
     · have : nextCont fuel r = validated { r with bp := bp', incompletePos := none } := by
         have h1 := validate_ip { r with bp := bp', incompletePos := none }
         simp only [nextCont, hipv, Option.isNone_none, if_true, search_eq r hipv, hres]
@@ -138,9 +138,9 @@ theorem observe_of_viewRec {r : Reader} {x : Rec} (h : viewRec r.br.buf r.bp = s
 
 /-- after a found record the reader is in a good state for the remaining items -/
 theorem Shown.good {inp G r x its'} (h : Shown inp G .parsing r x its') : Good inp G r its' := by
-  rcases h.rest with ⟨hst, hip, h1l, hits⟩ | ⟨hst, hits⟩
+  rcases h.rest with ⟨hst, hip, h1l, hits, -⟩ | ⟨hst, hits⟩
   · simp only [Good, hst]
-    exact ⟨⟨h.win, by have := h.p01; omega⟩, h.eof, hip, h.p01, h1l, hits⟩
+    exact ⟨⟨h.win, by have := h.p01; omega⟩, h.eof, hip, Nat.le_succ_of_le h.p01, h1l, hits⟩
   · simp only [Good, hst]
     exact ⟨h.win, h.eof, hits⟩
 
